@@ -42,16 +42,16 @@ theorem gather_by_origin {α : Type} (times : List (List Int)) (arrays : List (L
   Lemmas.gather_by_origin times arrays hs d
 
 /-- Ids are shifted by a per-probe offset … -/
-theorem ids_shifted (ids : List (List Nat)) (k i : Nat) (hk : k < ids.length)
+theorem ids_shifted (ids : List (List Nat)) (k i : Nat)
     (hi : i < (ids.getD k []).length) :
     ((shiftIds ids).getD k []).getD i 0 = (ids.getD k []).getD i 0 + (idOffsets ids).getD k 0 :=
-  Lemmas.ids_shifted ids k i hk hi
+  Lemmas.ids_shifted ids k i hi
 
 /-- … such that ids of different probes never collide: all shifted ids of probe k lie in
 `[offset_k, offset_{k+1})` and the offsets increase. -/
-theorem ids_disjoint (ids : List (List Nat)) (k l : Nat) (hkl : k < l) (hl : l < ids.length) :
+theorem ids_disjoint (ids : List (List Nat)) (k l : Nat) (hkl : k < l) :
     ∀ a ∈ (shiftIds ids).getD k [], ∀ b ∈ (shiftIds ids).getD l [], a < b :=
-  Lemmas.ids_disjoint ids k l hkl hl
+  Lemmas.ids_disjoint ids k l hkl
 
 /-- Template ids use offsets that count each probe's templates (rows of templates.npy, at least
 max id + 1): the merged template id of a spike is its original id plus the probe's offset … -/
@@ -68,11 +68,11 @@ theorem template_ids_shifted (ids : List (List Nat)) (counts : List Nat) (hlen :
         rw [h]; simp [hlen]) k i hi
 
 /-- … ids of different probes never collide … -/
-theorem template_ids_disjoint (ids : List (List Nat)) (counts : List Nat) (hlen : counts.length = ids.length)
-    (k l : Nat) (hkl : k < l) (hl : l < ids.length) :
+theorem template_ids_disjoint (ids : List (List Nat)) (counts : List Nat)
+    (k l : Nat) (hkl : k < l) :
     ∀ a ∈ (shiftBy ids (templateOffsets ids counts)).getD k [],
       ∀ b ∈ (shiftBy ids (templateOffsets ids counts)).getD l [], a < b :=
-  Lemmas.template_ids_disjoint ids counts hlen k l hkl hl
+  Lemmas.template_ids_disjoint ids counts k l hkl
 
 /-- … and when every template id is below its probe's template count the offsets are the summed
 template counts of the previous probes, i.e. the row offsets of the merged templates (C12). -/
